@@ -2592,6 +2592,14 @@ static size_t ZSTD_copyCCtx_internal(ZSTD_CCtx* dstCCtx,
         ZSTD_memcpy(dstCCtx->blockState.matchState.hashTable3,
                srcCCtx->blockState.matchState.hashTable3,
                h3Size * sizeof(U32));
+        /* copy tag table, and the salt its tags and the rows of hashTable were computed with */
+        if (ZSTD_rowMatchFinderUsed(srcCCtx->appliedParams.cParams.strategy, srcCCtx->appliedParams.useRowMatchFinder)) {
+            size_t const tagTableSize = hSize;
+            ZSTD_memcpy(dstCCtx->blockState.matchState.tagTable,
+                   srcCCtx->blockState.matchState.tagTable,
+                   tagTableSize);
+            dstCCtx->blockState.matchState.hashSalt = srcCCtx->blockState.matchState.hashSalt;
+        }
     }
 
     ZSTD_cwksp_mark_tables_clean(&dstCCtx->workspace);
